@@ -222,6 +222,41 @@ def run(ctx):
             for st_ in strings[:4]:
                 vals.append({"arg": a, "s": st_, "api": rng.choice(["ddp", "parse"])})
     val_results = core.run_cases(ctx, "harness.lib", "call_validate", vals, chunk=100) if vals else []
+    # ---- the OTHER arguments (languages, locales, region, try_previous_locales, use_given_order, the date string, the
+    # formats) with values of every type class: "TypeError (non-str input or wrongly typed argument), ValueError (unknown
+    # ... languages)" and nothing else; which check fires first is the model's (Validate.tla ArgsVerdict), the code must agree
+    argcases = []
+    if not ctx.replay:
+        POOLV = [T("none"), S("en"), S(""), T("int", 5), T("int", 0), T("float", 5.5), T("bool", True), T("bool", False), T("bytes", "656e"), T("bytes", ""),
+                 L(S("en")), T("tuple", [S("en")]), T("set", [S("en")]), T("frozenset", [S("en")]), T("dict", [["en", T("int", 1)]]), T("dict", []), L(), T("tuple", []),
+                 L(S("en"), T("none")), L(S("en"), T("int", 5)), L(L(S("en"))), L(S("xx")), L(S("EN")), L(S("en"), S("en")), L(T("bytes", "656e")), L(S("en"), S("fr")),
+                 T("datetime", [2020, 1, 1, 0, 0, 0, 0])]
+        FMTV = [T("none"), L(), L(S("#%Y")), T("tuple", [S("#%d/%m")]), T("set", [S("#%Y")]), S("#en"), S(""), T("int", 5), T("int", 0), T("float", 0.0), T("bool", True),
+                T("bool", False), T("bytes", "23"), T("dict", [["#en", T("int", 1)]]), T("dict", []), L(S("#%Y"), T("none")), L(T("int", 5)), L(L(S("#%Y"))),
+                L(T("bytes", "23")), T("frozenset", [S("#%Y %m")]), T("datetime", [2020, 1, 1, 0, 0, 0, 0])]
+        base = {"languages": L(S("en")), "locales": T("none"), "region": T("none"), "tpl": T("bool", False), "ugo": T("bool", False), "ds": S("1 May 2020"), "fmts": T("none")}
+        for name in ("languages", "locales", "region", "tpl", "ugo", "ds", "fmts"):
+            for v in (FMTV if name == "fmts" else POOLV):
+                if name == "locales" and v["t"] in ("list", "tuple", "set", "frozenset") and v["v"]:
+                    continue        # (what a locale NAME may be is C13's subject; containers of other things are covered through `languages`)
+                if name == "region" and v["t"] == "str":
+                    continue
+                for ds in ("1 May 2020", "zzz qqq"):
+                    c = dict(base)
+                    c[name] = v
+                    if name != "ds":
+                        c["ds"] = S(ds)
+                    elif ds != "1 May 2020":
+                        continue
+                    argcases.append(c)
+        for _ in range(150 if ctx.quick() else 3000):       # two arguments at once: the FIRST failing check decides
+            c = dict(base)
+            for name in rng.sample(["languages", "region", "tpl", "ugo", "ds", "fmts"], 2):
+                c[name] = rng.choice(FMTV if name == "fmts" else [v for v in POOLV if not (name == "region" and v["t"] == "str")])
+            if c["ds"]["t"] == "str":
+                c["ds"] = S(rng.choice(["1 May 2020", "zzz qqq"]))
+            argcases.append(c)
+    arg_results = core.run_cases(ctx, "harness.lib", "call_args", argcases, chunk=100) if argcases else []
     if not ctx.replay:
         # cases that share a settings dict are executed by the same worker: the library rebuilds its regex
         # caches for every new (settings, locale) pair, which dominates the cost otherwise
@@ -273,12 +308,37 @@ def run(ctx):
         else:
             argkind, d = "other", []
         records.append({"kind": "val", "tid": tid, "argkind": argkind, "d": d, "exc": vr["exc"], "mro": vr["mro"]})
+    def absarg(v):
+        t = v["t"]
+        items = []
+        if t in ("list", "tuple", "set", "frozenset"):
+            items = [{"t": x["t"], "s": x["v"] if x["t"] == "str" else ""} for x in v["v"]]
+        return {"t": t, "items": items, "falsy": not v["v"] if t != "datetime" else False, "s": v["v"] if t == "str" else ""}
+    arg_index = {}
+    for ac, ar in zip(argcases, arg_results):
+        tid = len(cases) + len(twin_index) + len(val_index) + len(arg_index)
+        arg_index[tid] = (ac, ar)
+        cabs = {k: absarg(ac[k]) for k in ("languages", "locales", "region", "tpl", "ugo", "ds", "fmts")}
+        cabs["applicable"] = ac["ds"]["t"] == "str" and ac["ds"]["v"] == "1 May 2020"
+        wellformed = (ac["languages"]["t"] in ("none", "list", "tuple", "set", "frozenset") and all(x["t"] == "str" and x["v"] in ("en", "fr") for x in (ac["languages"]["v"] or []))
+                      and ac["locales"]["t"] == "none" and ac["region"]["t"] == "none" and ac["tpl"]["t"] == "bool" and ac["ugo"]["t"] == "bool" and not ac["ugo"]["v"]
+                      and ac["ds"]["t"] == "str" and (ac["fmts"]["t"] == "none" or (ac["fmts"]["t"] in ("list", "tuple", "set", "frozenset") and all(x["t"] == "str" for x in ac["fmts"]["v"]))))
+        records.append({"kind": "args", "tid": tid, "c": cabs, "exc": ar["exc"], "mro": ar["mro"], "phase": ar["phase"], "wellformed": bool(wellformed)})
     tuples, gen = core.validate_traces(ctx, "T_C02", "SPECIFICATION TSpec\nCONSTANTS\n  Languages = {%s}\nPOSTCONDITION Consumed\nCHECK_DEADLOCK FALSE\n"
                                        % ", ".join('"%s"' % x for x in order), records)
     seen = {}
     ndrift = 0
     for t in tuples["REJECT"]:
         _, tid, kind, verdict, exc = t[:5]
+        if tid in arg_index:
+            ac, ar = arg_index[tid]
+            d_ = {"call": "DateDataParser(languages=<%r>, locales=<%r>, region=<%r>, try_previous_locales=<%r>, use_given_order=<%r>).get_date_data(<%r>, <%r>)" % tuple(
+                ac[k] for k in ("languages", "locales", "region", "tpl", "ugo", "ds", "fmts"))}
+            if kind == "abs":
+                ctx.note_drift("Validate", dict(d_, model=exc, observed=[ar["phase"], ar["exc"] or "accepted"]))
+            else:
+                ctx.violation(d_, verdict, expected="Validate.tla ArgsVerdict: %s" % (exc,), observed={"exc": ar["exc"], "msg": ar.get("msg"), "phase": ar["phase"]})
+            continue
         if tid in val_index:
             vc, vr = val_index[tid]
             if kind == "abs":
@@ -314,7 +374,7 @@ def run(ctx):
                       observed={"exc": r["exc"], "msg": r.get("msg"), "out": r["out"], "period": r["period"], "locale": r["locale"]}, extra={"full_case": c})
     ctx.notes.append({"reject_classes": {"%s|%s|%s" % k: v for k, v in seen.items()}})
     cov = {
-        "live_parser_look_alike_histories": len(twins), "parser_loop_events_validated": sum(1 for r_ in records if r_.get("kind") == "ploop"), "settings_arguments_judged_by_Validate": len(vals),
+        "live_parser_look_alike_histories": len(twins), "parser_loop_events_validated": sum(1 for r_ in records if r_.get("kind") == "ploop"), "settings_arguments_judged_by_Validate": len(vals), "other_arguments_judged_by_Validate": len(argcases),
         "evaluations": len(cases), "distinct_nontrivial": len({(c["s"], repr(c["kw"]), repr(c["settings"])) for c, r in zip(cases, results) if r["out"]}),
         "rule": "case = (string <= 100 chars, settings from the pool, languages / locales / region, date_formats); non-trivial = distinct call returning a datetime",
         "exhaustive": False, "states": mc.distinct, "transitions": mc.generated, "traces_validated_against_impl": len(cases),
